@@ -61,7 +61,7 @@ func ctxFingerprint(c fox.Context) string {
 	sort.Strings(rh)
 	req := c.Request()
 	return fmt.Sprintf("params[%s] param(a)=%s pattern=%s route#%d scope=%d method=%s path=%s host=%s q=%s qp=%s hdr=%s reqhdr=%s status=%d size=%d written=%v resphdr[%s] urlpath=%s",
-		strings.Join(ps, ","), c.Param("a"), c.Pattern(), world.TagOf(c.Route()), c.Scope(), c.Method(), c.Path(), c.Host(), c.QueryParam("tok"), c.QueryParams().Get("tok"),
+		strings.Join(ps, ","), c.Param("a"), c.Pattern(), world.TagOf(c.Route()), c.Scope(), c.Method(), c.Path(), c.Host(), c.QueryParam("tok"), c.QueryParams().Encode(),
 		c.Header("X-Token"), req.Header.Get("X-Token"), c.Writer().Status(), c.Writer().Size(), c.Writer().Written(), strings.Join(rh, ";"), req.URL.Path)
 }
 
@@ -172,13 +172,14 @@ func runC12(src sim.Source, o Opts) *Result {
 		Route   int
 		Yields  int
 		Rerange bool // range the task's kept iterator sequences again while this request is in flight
+		NoQuery bool // the request has no query string; its handler writes a value of its own into QueryParams()
 		Var     int  // generated routes: which parameters take a value that is also a static text (drives backtracking)
 	}
 	nclients := 1 + src.Intn("clients", 3)
 	plans := make([][]reqPlan, nclients)
 	for c := range plans {
 		for i, n := 0, 2+src.Intn("nreq", 6); i < n; i++ {
-			plans[c] = append(plans[c], reqPlan{Shape: sim.Pick(src, "shape", shapes), Route: src.Intn("route", len(routes)), Yields: src.Intn("yields", 3), Rerange: src.Intn("rerange", 3) == 0, Var: sim.Pick(src, "pvar", []int{0, 0, 1, 2, 3, 5, 6, 7})})
+			plans[c] = append(plans[c], reqPlan{Shape: sim.Pick(src, "shape", shapes), Route: src.Intn("route", len(routes)), Yields: src.Intn("yields", 3), Rerange: src.Intn("rerange", 3) == 0, NoQuery: src.Intn("noquery", 4) == 0, Var: sim.Pick(src, "pvar", []int{0, 0, 1, 2, 3, 5, 6, 7})})
 		}
 	}
 	withWriter := src.Intn("writer", 2) == 1
@@ -273,6 +274,10 @@ func runC12(src sim.Source, o Opts) *Result {
 				}
 				status := 200 + (ci*17+qi)%50
 				bodyLen := (ci + qi) % 7
+				rawQuery, wantQTok := "tok="+tok, tok
+				if pl.NoQuery && pl.Shape != "clonewith" && !strings.HasPrefix(pl.Shape, "lookup") {
+					rawQuery, wantQTok = "", ""
+				}
 				observe := func(c fox.Context, when string) {
 					fp := ctxFingerprint(c)
 					if c.Request() == nil || c.Writer() == nil {
@@ -282,7 +287,7 @@ func runC12(src sim.Source, o Opts) *Result {
 					if ot := otherTokens(fp, tok); len(ot) > 0 {
 						fail("request %s (%s %s%s, %s) %s: the context shows data of %v: %s", tok, method, host, path, pl.Shape, when, ot, fp)
 					}
-					if c.QueryParam("tok") != tok || c.Header("X-Token") != tok || c.Method() != method || c.Path() != path || c.Host() != host {
+					if c.QueryParam("tok") != wantQTok || c.Header("X-Token") != tok || c.Method() != method || c.Path() != path || c.Host() != host {
 						fail("request %s %s: request getters do not show the current request: %s", tok, when, fp)
 					}
 					if sv.Kind == model.KRoute {
@@ -304,6 +309,12 @@ func runC12(src sim.Source, o Opts) *Result {
 						fail("request %s: response headers already carry X-Resp=%s", tok, v)
 					}
 					observe(c, "at handler entry")
+					if rawQuery == "" {
+						if n := len(c.QueryParams()); n != 0 {
+							fail("request %s has no query string, its handler sees query values %q", tok, c.QueryParams().Encode())
+						}
+						c.QueryParams().Set("seen", tok) // the values are this request's own: writing into them is its business
+					}
 					c.SetHeader("X-Resp", tok)
 					for y := 0; y < pl.Yields; y++ {
 						s.Yield(sim.PtHandler)
@@ -420,7 +431,7 @@ func runC12(src sim.Source, o Opts) *Result {
 					}
 				default:
 					log := &world.ReqLog{Inner: inner}
-					req := world.NewRequest(method, host, path, "", "tok="+tok, log)
+					req := world.NewRequest(method, host, path, "", rawQuery, log)
 					req.Header.Set("X-Token", tok)
 					conn := world.NewConn()
 					if pl.Shape == "hijack" {
